@@ -207,7 +207,8 @@ pub fn unix_path(seed: u32) -> Vec<u8> {
     if seed % 8 == 6 && seed < 0xffff_fff0 {
         // a socket address as people write it in configuration files (with and without a scheme, abstract, relative, doubled
         // or trailing slashes, blanks), NUL-terminated; the rest zero or - for every other seed - non-zero
-        const NAMES: [&str; 24] = [
+        const NAMES: [&str; 32] = [
+            "\0beef5", "\000000", "\0BEEF5", "\0abcde", "\0fffff", "abns@name", "unix@/run/x.sock", "\0haproxy",
             "/var/run/haproxy.sock", "/run//app.sock", "/run/./app.sock", "/run/app.sock/", "unix:/run/client.sock", "unix:///run/client.sock", "unix://run/x", "unix:",
             "UNIX:/run/x.sock", "@abstract-name", "./relative.sock", "../up.sock", "file:///run/x.sock", "tcp://192.0.2.1:80", "~/.app.sock", " /leading-blank",
             "/trailing-blank ", "/with\nnewline", "/tmp/\u{e9}.sock", "unix:@abstract", "/", "//", "/run/app.sock\r\n", "localhost",
